@@ -385,6 +385,15 @@ func c12Invalid(c *mc.Ctx, p purposeKind) {
 	}
 	c.Statef("invalid=%v", wantInvalid)
 	tr := &netsim.Transport{Handler: func(*netsim.Request, *http.Request) netsim.Answer { return netsim.Answer{Err: netsim.ErrTransport} }}
+	// the very same certificates were checked for the *other* purpose a moment ago (some of these chains conform to it): a verdict on
+	// a chain belongs to the purpose it was asked for
+	other := purposeTS
+	if p == purposeTS {
+		other = purposeCS
+	}
+	for _, entry := range []string{"validatecontext", "checkstatus"} {
+		runEntry(entry, other, tr, chain)
+	}
 	for _, entry := range []string{"validatecontext", "checkstatus"} {
 		res, err, pan := runEntry(entry, p, tr, chain)
 		var ice result.InvalidChainError
